@@ -15,13 +15,15 @@ SPEC = {
         "update, all depths 1..7, both constructions) — the bytes outside the `material` slots being public keys / zeros / period is exactly what "
         "that comparison checks",
         "harness oracle: independent recomputation of every node seed (fixtures/blake2b_ref.rs) + window scan of the real buffer; caller's seed "
-        "buffer zeroed by keygen",
+        "buffer zeroed by keygen; key buffer zeroed when the key object is dropped",
     ],
     "assumptions": [
         "symbolic seeds: a seed derives exactly the leaves below it (no BLAKE2b preimage/collision shortcuts)",
         "only memory reachable through KesSk::as_bytes (and the caller's seed buffer) is observed; stack temporaries of keygen_slice and "
         "allocator residue are runtime behaviour outside the model",
     ],
-    "explanation": "self-test: Seed::split_slice without the final zeroing -> VIOLATION (past-seed-in-buffer); Ordering::Equal branch regenerating "
-                   "from a copy of the seed -> VIOLATION; harmless: zeroing with fill(0) instead of copy_from_slice -> quiet.",
+    "explanation": "self-tests run on a scratch edit of the pallas worktree (reverted afterwards): Seed::split_slice without the final "
+                   "zeroing -> exit 1, VIOLATION caller-seed-not-zeroed and past-seed-in-buffer sum2 period=3 (4-op replay); Ordering::Equal "
+                   "branch regenerating from a copy of the stored seed (slot not zeroed) -> exit 1, VIOLATION past-seed-in-buffer; harmless: "
+                   "zeroing with fill(0) instead of copy_from_slice -> exit 0, quiet.",
 }
